@@ -295,9 +295,10 @@ def eof_distinct(rep, lib):
     return r
 
 
-def raw_io(rep, lib):
+def raw_io(rep, lib, side="both"):
     r = rep.rule("C16-RAW-IO", "no bare read / write / whole-file read on the data path: input only through "
-                 "io::Bytes, output only through write_fmt/write_all, the only flush is Master::go's", floor=0,
+                 "io::Bytes, output only through write_fmt/write_all, the only flush is Master::go's"
+                 + ("" if side == "both" else " (this property: the %s side)" % side), floor=0,
                  analysis="A1 census of resolved callees against the raw-I/O table")
     hits = 0
     for name, b in sorted(lib.bodies.items()):
@@ -306,12 +307,13 @@ def raw_io(rep, lib):
         for c in b.calls:
             cal = c.callee or ""
             nm = c.name or ""
-            if RAW.match(cal) or RAW.match(nm):
+            is_out = "Write::" in cal or "Write::" in nm
+            if (RAW.match(cal) or RAW.match(nm)) and (side == "both" or (side == "input") != is_out):
                 hits += 1
                 r.bad("%s#%s" % (name, nm.rsplit("::", 1)[-1]), "%s is called directly: short reads/writes and "
                       "Interrupted are not handled, or the whole input is read before the first value is parsed" % nm,
                       c.where())
-            if cal == "std::io::Write::flush" and not name.startswith("Master"):
+            if cal == "std::io::Write::flush" and not name.startswith("Master") and side in ("both", "output"):
                 hits += 1
                 r.bad("%s#flush" % name, "flush outside Master::go", c.where())
     r.ok("census", "no raw I/O call in %d bodies" % len(lib.bodies), "", nontrivial=False)
